@@ -189,6 +189,9 @@ func c15GenRoute(t *rapid.T) system.Route {
 	// a small tree so that nesting and equal bases are frequent
 	base := rapid.SampledFrom([]string{"2001:db8::", "2001:db8:1::", "2001:db8:0:1::", "fd00::", "fd00:1::", "2a00:1:2:3::", "::"}).Draw(t, "base")
 	bits := rapid.SampledFrom([]int{0, 8, 16, 32, 48, 56, 64, 96, 127, 128}).Draw(t, "bits")
+	if rapid.IntRange(0, 2).Draw(t, "anybits") == 0 {
+		bits = rapid.IntRange(0, 128).Draw(t, "bitsv")
+	}
 	p := netip.PrefixFrom(netip.MustParseAddr(base), bits)
 	if rapid.IntRange(0, 3).Draw(t, "masked") != 0 {
 		p = p.Masked()
